@@ -284,3 +284,94 @@ Proof.
   intros Hf Hr. apply exec_regular_from; [exact Hf|apply inv_init|reflexivity|exact Hr].
 Qed.
 
+
+(* ------------------------------------------------------------------ RUnmodelled only comes from the tame test *)
+Lemma delete_loc_modelled c l : fst (delete_loc c l) <> RUnmodelled.
+Proof. destruct l as [|[|n rp]|o g]; simpl; discriminate. Qed.
+
+Lemma attach_node_modelled par nm nd c3 : fst (attach_node par nm nd c3) <> RUnmodelled.
+Proof. unfold attach_node. destruct (lookup par (c_root c3)); [simpl; discriminate|]. destruct (n_id nd); simpl; discriminate. Qed.
+
+Lemma insert_node_modelled cf c nd raw : fst (insert_node cf c nd raw) <> RUnmodelled.
+Proof.
+  unfold insert_node, insert_tail. destruct (n_id nd) as [o|]; [|apply attach_node_modelled].
+  destruct (loc_oid _ o); try (simpl; discriminate);
+    (destruct (oid_is _ o); [simpl; discriminate|apply attach_node_modelled]).
+Qed.
+
+Lemma make_node_modelled cf c d p o m : fst (make_node cf c d p o m) <> RUnmodelled.
+Proof. unfold make_node. destruct (negb (md_ok_opt cf m)); [simpl; discriminate|apply insert_node_modelled]. Qed.
+
+Lemma set_oid_node_modelled cf c rp o : fst (fst (set_oid_node cf c rp o)) <> RUnmodelled.
+Proof.
+  unfold set_oid_node. destruct (lookup rp (c_root c)) as [[d i m k]|]; [|simpl; discriminate].
+  destruct (oid_is i o); [simpl; discriminate|].
+  assert (H : forall c1, fst (fst (set_oid_after cf c1 rp o d i m)) <> RUnmodelled).
+  { intros c1. unfold set_oid_after. destruct i.
+    - destruct (opt_is (lookup rp (c_root c1))); [|simpl; discriminate].
+      pose proof (make_node_modelled cf c1 d rp (Some o) None) as Hm.
+      destruct (make_node cf c1 d rp (Some o) None) as [r c2]. exact Hm.
+    - destruct (opt_is (lookup rp (c_root c1))); simpl; discriminate. }
+  destruct (loc_oid c o); try apply H. simpl. discriminate.
+Qed.
+
+Theorem tame_step_modelled cf c x : tame cf c = true -> fst (step cf c x) <> RUnmodelled.
+Proof.
+  intros Ht. unfold step. rewrite Ht. cbn [negb].
+  destruct x as [p o m|p o m|p q|o p|p o d|p d o m keep|m o p].
+  - apply make_node_modelled.
+  - apply make_node_modelled.
+  - unfold op_rename. destruct (loc_path cf c p) as [|[|n rp]|g gn]; try (simpl; discriminate).
+    destruct (lookup (n :: rp) (c_root c)); [apply insert_node_modelled|simpl; discriminate].
+  - destruct (get_node cf c o p); [apply delete_loc_modelled|simpl; discriminate].
+  - unfold op_set_oid. destruct o as [o|]; [|simpl; discriminate]. destruct d as [d|]; [|simpl; discriminate].
+    destruct (loc_path cf c p) as [|rp|g gn]; try apply make_node_modelled.
+    pose proof (set_oid_node_modelled cf c rp o) as H.
+    destruct (set_oid_node cf c rp o) as [[r c1] ft]. exact H.
+  - unfold op_update. destruct (negb (md_ok cf (md_or m))); [simpl; discriminate|].
+    destruct (loc_path cf c p) as [|rp|g gn]; try apply make_node_modelled.
+    destruct (lookup rp (c_root c)) as [nd|]; [|simpl; discriminate].
+    destruct (negb (Bool.eqb (n_dir nd) d)); [apply make_node_modelled|].
+    assert (Hs : forall x : outcome * cache * fate, fst (fst x) <> RUnmodelled ->
+             fst (let '(r, c1, ft) := x in
+                  match r with
+                  | ROk =>
+                    if keep then
+                      match ft with
+                      | FSame => (ROk, with_root c1 (modify rp (upd_md (md_or m)) (c_root c1)))
+                      | FGone => (ROk, c1)
+                      | FGhost =>
+                        match o with
+                        | Some o0 => match aget o0 (c_ghosts c1) with
+                                     | Some g => (ROk, with_ghost c1 o0 (upd_md (md_or m) g))
+                                     | None => (ROk, c1)
+                                     end
+                        | None => (ROk, c1)
+                        end
+                      end
+                    else
+                      match loc_path cf c1 p with
+                      | LTree rp' => (ROk, with_root c1 (modify rp' (set_md (md_or m)) (c_root c1)))
+                      | _ => (ROk, c1)
+                      end
+                  | _ => (r, c1)
+                  end) <> RUnmodelled).
+    { intros [[r c1] ft] H. simpl in H. destruct r; try exact H.
+      destruct keep.
+      - destruct ft; try (simpl; discriminate). destruct o as [o0|]; [|simpl; discriminate].
+        destruct (aget o0 (c_ghosts c1)); simpl; discriminate.
+      - destruct (loc_path cf c1 p); simpl; discriminate. }
+    destruct o as [o0|].
+    + apply (Hs (set_oid_node cf c rp o0)). apply set_oid_node_modelled.
+    + apply (Hs (ROk, c, FSame)). simpl. discriminate.
+  - unfold op_set_meta. destruct (negb (md_ok_opt cf m)); [simpl; discriminate|].
+    destruct (get_node cf c o p) as [[|rp|g gn]|]; simpl; discriminate.
+Qed.
+
+(* along a regular sequence the model never leaves its fragment *)
+Theorem regular_never_unmodelled cf ops r m x :
+  fold_ok cf -> forallb (op_regular cf) ops = true ->
+  fst (step cf (exec cf (init r m) ops) x) <> RUnmodelled.
+Proof.
+  intros Hf Hr. destruct (exec_regular cf ops r m Hf Hr) as [Ht _]. apply tame_step_modelled. exact Ht.
+Qed.
